@@ -67,7 +67,10 @@ def _compute_sliced_chunks(chunks, slc, dim_size):
         # Compute the portion of this chunk included in the slice
         included_start = max(chunk_start, start)
         included_end = min(chunk_end, stop)
-        result.append(included_end - included_start)
+        # A zero-width chunk inside the range contributes no block, as in
+        # new_blockdim (what SliceSlicesIntegers.chunks advertises).
+        if included_end > included_start:
+            result.append(included_end - included_start)
 
     return tuple(result) if result else (0,)
 
